@@ -1,4 +1,4 @@
-import Lemmas.Ident.Forced
+import Lemmas.Ident.Mysql
 /-!
 # C14 — emitted DDL quotes every identifier and honours the schema
 -/
@@ -357,6 +357,94 @@ theorem stmt_mysqlChange (k : Kind) (r : Str → Bool) (g : Tgt) (col new : Name
     have h7 := h5 c rfl
     c14_all k, r, (.mysqlChange g col new ⟨ty, true, true, some d, some c⟩), hk
 
+/-! ## MySQL / MariaDB `ALTER TABLE … DROP CHECK | CONSTRAINT | FOREIGN KEY | INDEX | PRIMARY KEY` -/
+
+syntax "c14_mysql_drop" term "," term "," term "," term : tactic
+macro_rules
+  | `(tactic| c14_mysql_drop $k , $r , $c , $ps) => `(tactic|
+      (refine good_of_pieces $k $r $c $ps ?_ ?_ ?_ ?_ ?_
+       · unfold render
+         simp only [AT, render_tblFlatP, render_nameP, render_L, renderPs, List.append_assoc, List.append_nil]
+         try simp
+       · simp [shape, AT, itemsPs, itemsP, L, T, tblFlatP, nameP, tableRef, nameRef]
+       · rfl
+       · simp [AT, piecesOK_cons, piecesOK_nil, pieceOK_L, *]
+       · intro n hn hq
+         simp only [identNames, List.mem_append, List.mem_cons, List.not_mem_nil, or_false, Option.mem_toList,
+           beq_iff_eq, if_true, if_false, reduceCtorEq, or_assoc, List.nil_append, List.cons_append] at hn
+         simp only [AT, L, chainNames, tblFlatP, nameP, List.mem_append, List.mem_cons, List.not_mem_nil, or_false,
+           List.append_nil]
+         first
+         | (rcases hn with h | h | h <;>
+             first
+             | (subst h; simp)
+             | (rcases schema_cov_flat _ n h with e | e <;> simp [e]))
+         | (rcases hn with h | h <;>
+             first
+             | (subst h; simp)
+             | (rcases schema_cov_flat _ n h with e | e <;> simp [e]))))
+
+/-- MySQL/MariaDB drop of a CHECK / FOREIGN KEY / UNIQUE (index) / PRIMARY KEY constraint, for all names, provided
+    the schema argument is ONE identifier (`TgtFlatOK.flat`: a `quoted_name`, or a plain str without a dot).
+    Excluded case = open finding C14-MYSQL-DROP-DOTTED: for a dotted plain-str schema `format_table` quotes the whole
+    schema as one name while every other construct treats it as multi-part. -/
+theorem stmt_mysqlDropConstraint (k : Kind) (r : Str → Bool) (g : Tgt) (cname : Name) (kind : DropKind)
+    (hk : k = .mysql ∨ k = .mariadb) (hg : TgtFlatOK k g) (hc : NameOK k cname) :
+    Good k r (.mysqlDropConstraint g cname kind) := by
+  have h1 := ok_tblFlatP k g hg
+  have h2 := ok_nameP k cname hc
+  rcases hk with rfl | rfl <;> cases kind
+  · c14_mysql_drop Kind.mysql, r, (.mysqlDropConstraint g cname .check), [AT, tblFlatP g, L " DROP CHECK " "DROP CHECK", nameP cname]
+  · c14_mysql_drop Kind.mysql, r, (.mysqlDropConstraint g cname .fk), [AT, tblFlatP g, L " DROP FOREIGN KEY " "DROP FOREIGN KEY", nameP cname]
+  · c14_mysql_drop Kind.mysql, r, (.mysqlDropConstraint g cname .pk), [AT, tblFlatP g, L " DROP PRIMARY KEY " "DROP PRIMARY KEY"]
+  · c14_mysql_drop Kind.mysql, r, (.mysqlDropConstraint g cname .unique), [AT, tblFlatP g, L " DROP INDEX " "DROP INDEX", nameP cname]
+  · c14_mysql_drop Kind.mariadb, r, (.mysqlDropConstraint g cname .check), [AT, tblFlatP g, L " DROP CONSTRAINT " "DROP CONSTRAINT", nameP cname]
+  · c14_mysql_drop Kind.mariadb, r, (.mysqlDropConstraint g cname .fk), [AT, tblFlatP g, L " DROP FOREIGN KEY " "DROP FOREIGN KEY", nameP cname]
+  · c14_mysql_drop Kind.mariadb, r, (.mysqlDropConstraint g cname .pk), [AT, tblFlatP g, L " DROP PRIMARY KEY " "DROP PRIMARY KEY"]
+  · c14_mysql_drop Kind.mariadb, r, (.mysqlDropConstraint g cname .unique), [AT, tblFlatP g, L " DROP INDEX " "DROP INDEX", nameP cname]
+
+/-! ## MSSQL `_ExecDropConstraint` / `_ExecDropFKConstraint`: the three string literals -/
+
+theorem objectId_literal (g : Tgt) :
+    (match schemaGiven g.schema with
+     | some s => quoteInLiteral s.s ++ ['.']
+     | none => []) ++ quoteInLiteral g.t.s = quoteInLiteral (objectIdArg g) := by
+  unfold objectIdArg schemaOf schemaGiven
+  cases g.schema with
+  | none => simp
+  | some n =>
+    by_cases h : n.s.isEmpty = true
+    · simp [h]
+    · simp [h, ← quoteInLiteral_dot]
+
+/-- The three `'…'` literals of `_ExecDropConstraint` / `_ExecDropFKConstraint`: the statement tail is fixed text around
+    `sqlLiteral (schema.table)`, `sqlLiteral column` and `sqlLiteral ("alter table <formatted table> drop constraint ")`. -/
+theorem mssqlDropTail_literals (r : Str → Bool) (pfx : String) (g : Tgt) (col : Str) :
+    mssqlDropTail .mssql r pfx g col =
+      ("where " ++ pfx ++ "parent_object_id = object_id(").toList ++ sqlLiteral (objectIdArg g) ++
+      ")\nand col_name(".toList ++ pfx.toList ++ "parent_object_id, ".toList ++ pfx.toList ++ "parent_column_id) = ".toList ++
+      sqlLiteral col ++ "\nexec(".toList ++
+      sqlLiteral ("alter table ".toList ++ formatTableName .mssql r g.t g.schema ++ " drop constraint ".toList) ++
+      " + @const_name)".toList := by
+  have e1 : quoteInLiteral ("alter table ".toList ++ formatTableName .mssql r g.t g.schema ++ " drop constraint ".toList) =
+      "alter table ".toList ++ quoteInLiteral (formatTableName .mssql r g.t g.schema) ++ " drop constraint ".toList := by
+    simp [quoteInLiteral, escapeClose_append, escapeClose]
+  have e0 := objectId_literal g
+  unfold mssqlDropTail sqlLiteral
+  simp only [quoteInLiteral] at e0 e1 ⊢
+  rw [e1, ← e0]
+  simp [String.toList_append, List.append_assoc]
+  cases schemaGiven g.schema <;> rfl
+
+/-- … and each of them reads back as exactly the embedded text (instance of `mssql_literal_roundtrip`) -/
+theorem mssqlDrop_objectId_reads_back (g : Tgt) (rest : Str) (h : rest.head? ≠ some '\'') :
+    lex .mssql (sqlLiteral (objectIdArg g) ++ rest) = .str (objectIdArg g) :: lex .mssql rest :=
+  literal_roundtrip .mssql _ rest (Or.inl rfl) h
+
+example : mssqlDropTail .mssql (fun _ => false) "" { t := { s := "it's".toList }, schema := some { s := "s'x".toList } } "c'1".toList =
+    ("where parent_object_id = object_id('s''x.it''s')\nand col_name(parent_object_id, parent_column_id) = 'c''1'\n" ++
+     "exec('alter table [s''x].[it''s] drop constraint ' + @const_name)").toList := by decide +kernel
+
 /-! ## decidable form of `Good` and the counterexamples (the same witnesses are replayed on the real code on every run) -/
 
 def goodB (k : Kind) (r : Str → Bool) (c : Construct) : Bool :=
@@ -530,6 +618,18 @@ example : c14Ok .oracle (fun _ => false) (.dropColumn { t := { s := "users".toLi
     "ALTER TABLE users DROP COLUMN c".toList = false := by decide +kernel
 example : c14Ok .oracle (fun _ => false) (.dropColumn { t := plainName "users" } (plainName "c"))
     "ALTER TABLE users DROP COLUMN c".toList = true := by decide +kernel
+
+-- non-vacuity of stmt_mysqlDropConstraint: a quoted_name schema with a dot is ONE identifier and is accepted;
+-- the excluded case (plain dotted str, finding C14-MYSQL-DROP-DOTTED) is rejected by the oracle
+example : goodB .mysql (fun _ => false) (.mysqlDropConstraint
+    { t := plainName "My T", schema := some { s := "corp.sales".toList, qn := some none } } (plainName "ck") .check) = true := by
+  decide +kernel
+example : goodB .mariadb (fun _ => false) (.mysqlDropConstraint { t := plainName "t", schema := some (plainName "s") }
+    (plainName "fk 1") .fk) = true := by decide +kernel
+example : goodB .mysql (fun _ => false) (.mysqlDropConstraint
+    { t := plainName "t", schema := some (plainName "corp.sales") } (plainName "ck") .check) = false := by decide +kernel
+example : FlatSchema { t := plainName "t", schema := some { s := "corp.sales".toList, qn := some none } } := by
+  intro s h; cases h; exact Or.inl rfl
 
 /-- `%` in a quoted name on PostgreSQL/MySQL (finding C14-PERCENT): excluded by `NameOK.pct` -/
 theorem percent_counterexample :
